@@ -26,6 +26,10 @@ pub fn families() -> Vec<Family> {
         Family { name: "2decays+offset", fns: vec![(Kind::Exp, vec![0]), (Kind::Exp, vec![1]), (Kind::One, vec![])], ranges: vec![(0.8, 1.5), (5.0, 8.0)], xmax: 40.0, nmin: 40, nmax: 100 },
         Family { name: "3decays", fns: vec![(Kind::Exp, vec![0]), (Kind::Exp, vec![1]), (Kind::Exp, vec![2])], ranges: vec![(0.5, 0.9), (3.0, 4.5), (15.0, 22.0)], xmax: 60.0, nmin: 80, nmax: 160 },
         Family { name: "gauss+decay+offset", fns: vec![(Kind::Gauss, vec![0, 1]), (Kind::Exp, vec![2]), (Kind::One, vec![])], ranges: vec![(3.0, 6.0), (0.7, 1.4), (2.0, 5.0)], xmax: 10.0, nmin: 40, nmax: 100 },
+        // the same families sampled far into the tails: basis values underflow gradually (subnormal) and to zero
+        Family { name: "decay-longtail+offset", fns: vec![(Kind::Exp, vec![0]), (Kind::One, vec![])], ranges: vec![(0.0131, 0.0142)], xmax: 10.0, nmin: 200, nmax: 400 },
+        Family { name: "narrowgauss+decay+offset", fns: vec![(Kind::Gauss, vec![0, 1]), (Kind::Exp, vec![2]), (Kind::One, vec![])], ranges: vec![(3.0, 6.0), (0.12, 0.2), (2.0, 5.0)], xmax: 10.0, nmin: 150, nmax: 300 },
+        Family { name: "decay-tail32+offset", fns: vec![(Kind::Exp, vec![0]), (Kind::One, vec![])], ranges: vec![(0.096, 0.11)], xmax: 10.0, nmin: 120, nmax: 300 },
     ]
 }
 
@@ -44,7 +48,8 @@ pub fn conv_case<T: Sc>(rng: &mut Rng, idx: usize) -> (FitCase<T>, Vec<T>, DMatr
     let phi = recipe.phi::<T>(&tr);
     let m = recipe.m();
     let s = if rng.chance(0.3) { rng.range(2, 4) } else { 1 };
-    let noise_rel = if rng.chance(0.5) { 0.0 } else { *rng.pick(&[1e-4, 1e-3, 1e-2]) };
+    let tail = fam.name.contains("tail");
+    let noise_rel = if rng.chance(0.5) { 0.0 } else if tail { *rng.pick(&[1e-4, 1e-3]) } else { *rng.pick(&[1e-4, 1e-3, 1e-2]) };
     let mut y = DMatrix::from_element(n, s, T::of(0.0));
     let mut ctrue = DMatrix::from_element(m, s, T::of(0.0));
     for c in 0..s {
@@ -174,7 +179,7 @@ pub fn stream(out: &mut Out, seed: u64, thorough: bool) {
     let mut rng = Rng::new(seed ^ 0xC05);
     let n = if thorough { 10000 } else { 240 };
     for i in 0..n {
-        if i % 8 == 7 {
+        if rng.chance(0.125) || (i % 9 == 8 && i % 2 == 0) {
             emit_conv_case::<f32>(out, i, &mut rng);
         } else {
             emit_conv_case::<f64>(out, i, &mut rng);
